@@ -467,6 +467,9 @@ def run(chk):
         chk.case(("mangled", s_), nontrivial="_$" in printed)
         if json.dumps(static_events(drop_empty_text(ta))) != json.dumps(static_events(drop_empty_text(tb))):
             cls = "mangled-scope-names-not-declared" if "_$" in printed else "behaviour-mangled"
+            if cls == "behaviour-mangled" and \
+                    json.dumps(static_events(drop_empty_text(merge_texts(ta)))) == json.dumps(static_events(drop_empty_text(merge_texts(tb)))):
+                cls = "comment-between-texts-dropped+other-known"       # the same finding as in the unmangled stream (D56)
             chk.violation("input", "the template printed with scope-name mangling renders differently after re-parsing", classification=cls,
                           template=s_[:3000], printed=printed[:3000])
     chk.bump("oracle:mangled", len(rmeta2))
